@@ -35,6 +35,16 @@ Proof.
     cbn [andb]; try reflexivity; lia.
 Qed.
 
+(* limited_count (repaired): validation first, then the per-type limit, for every u16 x u16 pair *)
+Lemma limited_count_spec s n limit : s < 65536 -> n < 65536 ->
+  limited_count (s, n) limit =
+    if range_ok s n then (if limit <? n then inl CountTooLargeForType else inr (s, n))
+    else if n =? 0 then inl CountOfZero else inl AddressOverflow.
+Proof.
+  intros Hs Hn. unfold limited_count. cbn [fst snd]. rewrite try_from_spec by assumption.
+  destruct (range_ok s n); [reflexivity|]. destruct (n =? 0); reflexivity.
+Qed.
+
 (* ---- write cursor: a successful write appends ---- *)
 Definition wapp (w : wcur) (bs : list N) : wcur := {| w_cap := w_cap w; w_out := w_out w ++ bs |}.
 
@@ -241,15 +251,13 @@ Proof.
   intros Hwf Hlim. destruct c as [s n|s n|s n|s n|i v|i v|s vs|s vs];
     cbn [within_limits_b call_wf] in *; unfold is_u16 in *.
   1,2: apply andb_prop in Hlim as [Hr Hn]; apply range_ok_true in Hr;
-       eexists; cbn [build]; rewrite try_from_spec by lia;
+       eexists; cbn [build]; unfold of_read_bits, max_read_coils_count; rewrite limited_count_spec by lia;
        replace (range_ok s n) with true by (unfold range_ok; lia);
-       cbn [of_range obind]; unfold of_read_bits, limited_count, max_read_coils_count; cbn [snd];
        destruct (N.ltb_spec 2000 n); [lia|]; cbn [of_range obind];
        (split; [reflexivity|]); (split; [reflexivity|]); (split; [apply ser_range_appends|cbn; lia]).
   1,2: apply andb_prop in Hlim as [Hr Hn]; apply range_ok_true in Hr;
-       eexists; cbn [build]; rewrite try_from_spec by lia;
+       eexists; cbn [build]; unfold of_read_registers, max_read_registers_count; rewrite limited_count_spec by lia;
        replace (range_ok s n) with true by (unfold range_ok; lia);
-       cbn [of_range obind]; unfold of_read_registers, limited_count, max_read_registers_count; cbn [snd];
        destruct (N.ltb_spec 125 n); [lia|]; cbn [of_range obind];
        (split; [reflexivity|]); (split; [reflexivity|]); (split; [apply ser_range_appends|cbn; lia]).
   - eexists. split; [reflexivity|]. split; [reflexivity|]. split; [apply ser_indexed_bool_appends|destruct v; cbn; lia].
@@ -307,12 +315,12 @@ Proof.
   assert (exists e, client_submit f tx uid c = Err e) as [e He]; [|eauto].
   unfold client_submit.
   destruct c as [s n|s n|s n|s n|i v|i v|s vs|s vs]; cbn [within_limits_b call_wf] in *; unfold is_u16 in *; try discriminate.
-  1,2: cbn [build]; rewrite try_from_spec by lia; destruct (range_ok s n) eqn:Hr;
-       [apply range_ok_true in Hr; cbn [of_range obind]; unfold of_read_bits, limited_count, max_read_coils_count; cbn [snd];
+  1,2: cbn [build]; unfold of_read_bits, max_read_coils_count; rewrite limited_count_spec by lia; destruct (range_ok s n) eqn:Hr;
+       [apply range_ok_true in Hr;
         destruct (N.ltb_spec 2000 n); [cbn; eauto|cbn [andb] in Hlim; lia]
        | destruct (n =? 0); cbn; eauto].
-  1,2: cbn [build]; rewrite try_from_spec by lia; destruct (range_ok s n) eqn:Hr;
-       [apply range_ok_true in Hr; cbn [of_range obind]; unfold of_read_registers, limited_count, max_read_registers_count; cbn [snd];
+  1,2: cbn [build]; unfold of_read_registers, max_read_registers_count; rewrite limited_count_spec by lia; destruct (range_ok s n) eqn:Hr;
+       [apply range_ok_true in Hr;
         destruct (N.ltb_spec 125 n); [cbn; eauto|cbn [andb] in Hlim; lia]
        | destruct (n =? 0); cbn; eauto].
   - cbn [build]. unfold write_multiple_from. fold (len vs) in *.
